@@ -26,6 +26,13 @@ STEER = {
         "The defect must be entirely inside the file %s (read the callers to understand how it is "
         "used). It should sit on a rarely used parameter value or code path or need a particular "
         "coincidence in the data; it must NOT show on a simple call with default parameters."),
+    "clause": (
+        "Read the property text closely and choose its LEAST OBVIOUS clause or sub-case - a "
+        "parenthesised remark, an 'including when ...' case, one direction of an 'iff', the behaviour "
+        "for one particular operator, flag, dtype or entry point named in the text, a guarantee about "
+        "order, multiplicity, labels or dtypes - and break ONLY that clause, leaving the headline "
+        "behaviour of the property intact. Say in SEED_NOTES.md which words of the property text "
+        "the defect contradicts."),
     "silent": (
         "The defect must be SILENT AND PLAUSIBLE: the wrong result must look reasonable (no exception, "
         "no obviously malformed output, row counts close to the right ones) and affect only a small "
